@@ -26,6 +26,9 @@ RULE = (
     "reader(id=i) for every id ever issued and compared with the retention model B2; periodically every object reachable from a snapshot "
     "is attacked with every mutator found by introspection. Distinct by (zone class, step kind, outcome, |retained|, |pinned|)."
 )
+RULE += " " + (
+    "Also (interleaved part): readers and writers as real threads under the deterministic scheduler with yield injection between statements of dns.versioned; whenever the zone's lock is free every open reader's version is among the retained ones and version ids strictly increase; each reader reads one committed value for its whole life. Distinct by schedule trace prefix."
+)
 ASSUMPTIONS = [
     "retention model B2 (DESIGN.md Appendix B2): prune from the oldest while id < min(pinned or newest) and policy(len, id) says so",
     "pruning policies used are pure functions of (number of retained versions, version id)",
